@@ -1006,7 +1006,10 @@ class UTPM(Ring, RawAlgorithmsMixIn):
         else:
             xbar, = out
 
-        xbar.data.real = ybar.data
+        # real(x) of complex x is a view and so is its adjoint (nothing to do then); for real x the result
+        # shares x's array but not its adjoint: accumulate
+        if not numpy.shares_memory(xbar.data, ybar.data):
+            xbar.data.real += ybar.data
 
     @classmethod
     def imag(cls, x):
